@@ -65,8 +65,18 @@ def check_cases(ctx, cases, names, label):
 ILLEGAL = ["@", "`", "\\"]
 
 
+TYPE_NAME_TEXTS = ["int x = ( unsigned long ) y ;", "int x = sizeof ( int * const * ) ;", "int x = ( struct S ) { 1 } . a ;",
+                   "int x = sizeof ( int ( * ) ( int a , char b ) ) ;", "void f ( void ) { y = ( const char * ) z + _Alignof ( long long ) ; }",
+                   "int x = ( int [ 3 ] ) { 1 , 2 } [ 0 ] + ( short ) 1 ;", "_Alignas ( unsigned int ) int q ; _Atomic ( long int ) r ;"]
+
+
 def injections(rnd, progs, n):
     out = []
+    for t in TYPE_NAME_TEXTS:
+        toks = t.split()
+        for i in range(len(toks) + 1):
+            for bad in ILLEGAL[:2]:
+                out.append(" ".join(toks[:i] + [bad] + toks[i:]))
     for _ in range(n):
         toks = list(rnd.choice(progs))
         i = rnd.randrange(len(toks) + 1)
